@@ -47,11 +47,13 @@ pub fn identifiers(sigma: &[char], l: usize) -> Vec<String> {
     out
 }
 
-pub const DICTIONARY: [&str; 50] = [
+pub const DICTIONARY: [&str; 53] = [
     "HTTPServer", "HttpServer", "XMLHttpRequest", "Hello2You", "IPv6Addr", "A", "AB", "Ab", "ABc", "ABcD", "X__Y", "X_y", "Foo_Bar", "FOO_BAR", "FooBarBaz", "Sha256Hash",
     "Utf8To16", "V1", "V1a", "A1B2", "Red", "DarkBlack", "BrightWhite", "MyHTTPSConnection", "I", "IO", "IOError", "Os2Warp", "B2b", "Abc123Def", "ABC123def", "Élan", "ÑandÚ",
     "StraßeX", "Ünï", "TestMe_", "Test__Me", "T_", "Aa1_2b", "ZzTop", "NoOp", "PDFLoader2", "X86_64", "Armv7", "Café2", "Straße2You", "Ünï3x",
     // scale: long identifiers (many words, acronym runs, digits)
+    // raw identifiers stand for the identifier without `r#`
+    "r#type", "r#Match", "r#PaleGreen",
     "ThisIsAVeryLongVariantNameWithManyManyWordsInItForScaleAndThenSomeMoreWordsToBeSure", "HTTP2XMLToJSONConverterV10Beta3RCFinalFINAL2", "Aa0Bb1Cc2Dd3Ee4Ff5Gg6Hh7Ii8Jj9KkLlMmNnOoPpQqRrSsTtUuVvWwXxYyZz",
 ];
 
@@ -85,6 +87,12 @@ pub fn programs(tier: Tier) -> ProgramSet {
         spec.variants.push(e3);
         let source = render_b(&spec);
         out.push(Program { idx: 0, label: format!("B: dictionary under {:?}", st), k: 1, spec: spec.clone(), aux: json!({"layer": "B"}), source });
+        // the same dictionary with an enum-level prefix: printing derives prepend it to the RE-CASED name, the parser and
+        // get_serializations do not use it
+        let mut pf = spec.clone();
+        pf.prefix = Some("p/".into());
+        let source = render_b(&pf);
+        out.push(Program { idx: 0, label: format!("B-prefix: dictionary under {:?} with prefix = \"p/\"", st), k: 2, spec: pf, aux: json!({"layer": "B"}), source });
         // the same dictionary parsed case-insensitively (enum-level flag, one variant opting out)
         let mut ci = spec.clone();
         ci.aci = true;
